@@ -115,6 +115,12 @@ theorem save_atomic (chunks : List (List Nat)) (old : Option (List Nat)) (k : Na
     ((FS.mk old none).run ((saveScript chunks none).1.take k)).file = some chunks.flatten :=
   NV.C16.save_atomic chunks old k
 
+/-- ... also when the crash falls INSIDE a call (a line half written, a buffer half flushed: `FS.partialStep`) -/
+theorem save_atomic_partial (chunks : List (List Nat)) (old : Option (List Nat)) (k : Nat) (c : Call) (d' : List Nat) :
+    (((FS.mk old none).run ((saveScript chunks none).1.take k)).partialStep c d').file = old ∨
+    (((FS.mk old none).run ((saveScript chunks none).1.take k)).partialStep c d').file = some chunks.flatten :=
+  NV.C16.save_atomic_partial chunks old k c d'
+
 /-- a save that runs to its end leaves exactly the new contents and no temporary -/
 theorem save_complete (chunks : List (List Nat)) (old : Option (List Nat)) :
     (FS.mk old none).run (saveScript chunks none).1 = FS.mk (some chunks.flatten) none :=
